@@ -85,6 +85,8 @@ def build_harness(ctx, cmd="znh", race=False, tags="verif"):
 # ---------------------------------------------------------------- TLC
 
 TLC_JAR_CP = "/opt/veriftools/tla/tla2tools.jar:/opt/veriftools/tla/CommunityModules-deps.jar"
+import threading
+_lock = threading.Lock()
 RE_STATES = re.compile(r"(\d+) states generated, (\d+) distinct states found")
 
 
@@ -93,7 +95,9 @@ def tlc(ctx, module, cfg=None, workers=None, timeout=600, extra=(), files=(), si
     """Run TLC on spec/<module>.tla with spec/<cfg> in a scratch copy of spec/.
     Returns (stdout_text, info). A violated invariant/property of the committed spec is a
     broken spec -> NoVerdict, unless allow_violation (used for AsCoded counterexample generation)."""
-    work = ctx.sub("tlc-%d" % len(ctx.tlc_runs))
+    with _lock:
+        ctx._tlc_n = getattr(ctx, "_tlc_n", 0) + 1
+        work = ctx.sub("tlc-%d" % ctx._tlc_n)
     for f in os.listdir(SPEC):
         if f.endswith(".tla") or f.endswith(".cfg"):
             shutil.copy(os.path.join(SPEC, f), work)
